@@ -18,6 +18,7 @@ VERIF_MSGS = ('postcondition not satisfied', 'precondition not satisfied', 'asse
               'possible arithmetic underflow/overflow', 'possible division by zero', 'decreases not satisfied', 'termination', 'possible bit shift underflow/overflow',
               'assertion failure', 'failed this', 'unable to prove', 'could not prove')
 import threading
+FAILKEYS = ('failed_clauses', 'failed_lemmas', 'body_fail', 'abort_fail', 'support_fail')
 _extract_lock = threading.Lock()
 
 class Undecided(Exception):
@@ -62,8 +63,23 @@ def classify(meta, res, unit_file):
     for a, b in zip(lemma_ranges, lemma_ranges[1:]): a[2] = b[1] - 1
     if lemma_ranges: lemma_ranges[-1][2] = len(text_lines)
     # contract header ranges for exec fns: from the `fn` line to out_line0
-    r = dict(failed_clauses={}, failed_lemmas={}, body_fail={}, infra=[], rlimit=[], compile_errors=[])
+    r = dict(failed_clauses={}, failed_lemmas={}, body_fail={}, abort_fail={}, support_fail={}, infra=[], rlimit=[], compile_errors=[])
     base = os.path.basename(unit_file)
+    def category(msg, lines, f):
+        """what kind of obligation inside an extracted function body failed (DESIGN 7a):
+        support  -- an assertion / lemma precondition inside a proof block the template inserted (proof guidance, not specification)
+        abort    -- the panic condition of a library operation (checked arithmetic of the shim, native overflow, division by zero)
+        semantic -- a loop invariant, the precondition of a contracted repository function, an untagged contract line"""
+        prim = [a for (a, b, lab, p) in lines if p] or [a for (a, b, lab, p) in lines]
+        if any(h0 <= a <= h1 for a in prim for (h0, h1) in f.get('hint_lines', [])): return 'support'
+        if any(k in msg for k in ('possible arithmetic underflow/overflow', 'possible division by zero', 'possible bit shift underflow/overflow')): return 'abort'
+        if 'precondition not satisfied' in msg:
+            pre = [a for (a, b, lab, p) in lines if 'failed precondition' in lab]
+            for a in pre:
+                if any(g['sig_line0'] <= a <= g['out_line0'] for g in fns): return 'semantic'
+                if any(a0 <= a <= a1 for (nm, a0, a1) in lemma_ranges): return 'support'
+            return 'abort' if pre else 'semantic'
+        return 'semantic'
     for d in res['diags']:
         if d.get('level') != 'error': continue
         msg = d.get('message', '')
@@ -85,11 +101,16 @@ def classify(meta, res, unit_file):
                     r['failed_clauses'].setdefault(c['name'], []).append(msg); hit = True
         if hit: continue
         # 2. inside an extracted fn (body or untagged contract line)
-        for f in fns:
-            lo = f['out_line0'] - 200; hi = f['out_line1']
-            for (a, b, lab, prim) in lines:
-                if f.get('sig_line0', f['out_line0']) <= a <= hi:
-                    r['body_fail'].setdefault(f['name'], []).append('%s @%d: %s' % (msg, a, text_lines[a - 1].strip()[:160])); hit = True; break
+        # the primary span (the failing call / assertion / invariant) decides which function owns the failure
+        for only_primary in (True, False):
+            for f in fns:
+                hi = f['out_line1']
+                for (a, b, lab, prim) in lines:
+                    if only_primary and not prim: continue
+                    if f.get('sig_line0', f['out_line0']) <= a <= hi:
+                        key = {'semantic': 'body_fail', 'abort': 'abort_fail', 'support': 'support_fail'}[category(msg, lines, f)]
+                        r[key].setdefault(f['name'], []).append('%s @%d: %s' % (msg, a, text_lines[a - 1].strip()[:160])); hit = True; break
+                if hit: break
             if hit: break
         if hit: continue
         for (nm, a0, a1) in lemma_ranges:
@@ -116,7 +137,7 @@ def unit_result(unit, tier='quick', seed=0, probe=False, known_strict=()):
                 path, meta = extract.build_unit(unit, REPO, VERIF, BUILD, lenient=True, force_assume=force)
                 meta['lenient_reason'] = str(e0)
             text = open(path).read()
-        key = hashlib.sha256((text + verus_version() + ' '.join(BASE_FLAGS)).encode()).hexdigest()[:24]
+        key = hashlib.sha256((text + verus_version() + ' '.join(BASE_FLAGS) + 'v2' + json.dumps([f.get('hint_lines') for f in meta['functions']])).encode()).hexdigest()[:24]
         cdir = os.path.join(BUILD_ROOT, 'cache'); os.makedirs(cdir, exist_ok=True)
         cpath = os.path.join(cdir, '%s-%s.json' % (unit, key))
         if os.path.exists(cpath) and not os.environ.get('VERIF_NOCACHE'):
@@ -142,13 +163,13 @@ def unit_result(unit, tier='quick', seed=0, probe=False, known_strict=()):
     attempts = [dict(rlimit=40, seed=None, wall=res['wall'])]
     # retry rule (DESIGN 7): a proof under any seed is a proof.  Only re-run when something failed
     # that is not a compile error.
-    def bad(c): return c['failed_clauses'] or c['failed_lemmas'] or c['body_fail'] or c['rlimit'] or c['infra']
+    def bad(c): return c['failed_clauses'] or c['failed_lemmas'] or c['body_fail'] or c['abort_fail'] or c['support_fail'] or c['rlimit'] or c['infra']
     unstable = []
-    only_known = (not cl['failed_lemmas'] and not cl['body_fail'] and not cl['rlimit'] and not cl['infra']
+    only_known = (not cl['failed_lemmas'] and not cl['body_fail'] and not cl['abort_fail'] and not cl['support_fail'] and not cl['rlimit'] and not cl['infra']
                   and cl['failed_clauses'] and all(k in known_strict for k in cl['failed_clauses']))
     if bad(cl) and not cl['compile_errors'] and not only_known:
         # functions to re-check: those owning a failed clause / body obligation, and failed lemmas
-        fns = set(cl['body_fail'].keys()) | set(cl['failed_lemmas'].keys())
+        fns = set(cl['body_fail'].keys()) | set(cl['failed_lemmas'].keys()) | set(cl['abort_fail'].keys()) | set(cl['support_fail'].keys())
         for c in meta['clauses']:
             if c['name'] in cl['failed_clauses']: fns.add(c['fn'])
         targeted = bool(fns) and not cl['rlimit'] and not cl['infra']
@@ -162,14 +183,14 @@ def unit_result(unit, tier='quick', seed=0, probe=False, known_strict=()):
                     runs.append(r2)
             if not runs:
                 runs = [run_verus(path, rlimit=rl, seed=sd)]
-            cl2 = dict(failed_clauses={}, failed_lemmas={}, body_fail={}, infra=[], rlimit=[], compile_errors=[])
+            cl2 = dict(failed_clauses={}, failed_lemmas={}, body_fail={}, abort_fail={}, support_fail={}, infra=[], rlimit=[], compile_errors=[])
             for r2 in runs:
                 c2 = classify(meta, r2, path)
-                for k in ('failed_clauses', 'failed_lemmas', 'body_fail'): cl2[k].update(c2[k])
+                for k in FAILKEYS: cl2[k].update(c2[k])
                 for k in ('infra', 'rlimit', 'compile_errors'): cl2[k] += c2[k]
                 attempts.append(dict(rlimit=rl, seed=sd, wall=r2['wall'], targeted=targeted))
             # an obligation discharged in any run counts as discharged
-            for k in ('failed_clauses', 'failed_lemmas', 'body_fail'):
+            for k in FAILKEYS:
                 for nm in list(cl[k]):
                     if nm not in cl2[k] and not cl2['compile_errors'] and not any(nm in str(x) for x in cl2['rlimit']):
                         unstable.append(nm); del cl[k][nm]
@@ -187,7 +208,7 @@ def unit_result(unit, tier='quick', seed=0, probe=False, known_strict=()):
         pass
     c = dict(unit=unit, key=key, verus_cmd=res['cmd'], verified=vr.get('verified'), errors=vr.get('errors'),
              encountered_vir_error=vr.get('encountered-vir-error'), wall=sum(a['wall'] for a in attempts), attempts=attempts,
-             failed_clauses=cl['failed_clauses'], failed_lemmas=cl['failed_lemmas'], body_fail=cl['body_fail'],
+             failed_clauses=cl['failed_clauses'], failed_lemmas=cl['failed_lemmas'], body_fail=cl['body_fail'], abort_fail=cl['abort_fail'], support_fail=cl['support_fail'],
              infra=cl['infra'], rlimit=[str(x)[:300] for x in cl['rlimit']], compile_errors=cl['compile_errors'],
              unstable=sorted(set(unstable)), fn_times=fn_times, no_json=(res['out'] is None),
              stderr_tail=res['stderr'][-1500:] if res['out'] is None or cl['compile_errors'] else '')
